@@ -74,7 +74,7 @@ Example C02_history_nonvacuous :
              ([47;97;112;112;47;112;107;103;47;108;105;98;47;112;97;99;107;97;103;101;46;106;115;111;110], FPkg (Some [97;108;116;46;106;115]));
              ([47;97;112;112;47;112;107;103;47;108;105;98;47;97;108;116;46;106;115], FJs [ISet 1 1]);
              ([47;97;112;112;47;112;107;103;47;108;105;98;47;105;110;100;101;120;46;106;115], FJs [ISet 2 2])] in
-  let nr := {| n_registry := []; n_global := []; n_core := []; n_loader_reqs := [] |} in
+  let nr := {| n_registry := []; n_global := []; n_core := []; n_loader_reqs := []; n_loader_throws := [] |} in
   let app := parse [47;97;112;112] in
   let st := run_tops fs nr 5 init_state [(app, [46;47;112;107;103;47;108;105;98])] in
   let '(st', x) := require_ fs nr 5 st app [46;47;112;107;103] in
